@@ -43,8 +43,8 @@ def run(ctx):
                 r = json.loads(ln)
                 f.write(json.dumps({"ty": r["ty"], "cls": r.get("cls", ""), "in": r["in"]}) + "\n")
     else:
-        casep = cc.gen_cases(ctx, binp, k, names, CLASSES, tag="c14", kk=3 if ctx.quick else 8, big_limit=700 if ctx.quick else 4000, med_limit=200 if ctx.quick else 1200,
-                                 sample_n=0 if ctx.quick else 8)
+        casep = cc.gen_cases(ctx, binp, k, names, CLASSES, tag="c14", kk=3 if ctx.quick else 10, big_limit=700 if ctx.quick else 4000, med_limit=200 if ctx.quick else 1200,
+                                 sample_n=0 if ctx.quick else 12)
     tracep = ctx.tmp + "/trace.ndjson"
     lines = cc.run_dec(ctx, binp, casep, tracep)
     cc.account(ctx, lines, "inputs = encodings of generator values with length prefixes replaced by attacker-chosen values, frame length edits, "
